@@ -102,9 +102,18 @@ namespace BitSerializer::Convert::Detail
 		{
 			if constexpr (TDivRatio::num == 1)
 			{
-				const auto v = static_cast<TTargetRep>(static_cast<TOpRep>(duration.count()) / static_cast<TOpRep>(TDivRatio::den));
-				if (static_cast<TRep>(v * TDivRatio::den) != duration.count()) {
+				if constexpr (std::is_signed_v<TRep> && !std::is_signed_v<TTargetRep>) {
+					if (duration.count() < 0) {
+						throw std::out_of_range("Target duration is not enough");
+					}
+				}
+				const auto q = static_cast<TOpRep>(duration.count()) / static_cast<TOpRep>(TDivRatio::den);
+				if (static_cast<TOpRep>(duration.count()) % static_cast<TOpRep>(TDivRatio::den) != 0) {
 					throw std::out_of_range("Precision of target duration is not enough");
+				}
+				const auto v = static_cast<TTargetRep>(q);
+				if (static_cast<TOpRep>(v) != q || (q > 0 && v < 0) || (q < 0 && v > 0)) {
+					throw std::out_of_range("Target duration is not enough");
 				}
 				return TTarget(v);
 			}
